@@ -3,7 +3,7 @@ import Summer.Spec.Aggregate
 import Mathlib.Data.List.Nodup
 /-
 Helper lemmas for property C03 (aggregation over the strata of an unadjusted stratification).
-Part 1: structure — what `stratifyFlow` produces, the realised weights of the copies, injectivity of
+Part 1: structure — what `stratifyFlow` produces, the realised weights of the copiesA, injectivity of
 `Comp.stratify`, `stratifyComps`, `indexOf?`, and the aggregation operator `Spec.aggBy`.
 -/
 open Summer Summer.Build Summer.Run Summer.Generated Summer.Spec
@@ -43,7 +43,7 @@ theorem stratifyEntry_unadj (s : Strat α) (f : Flow α) (h : s.flowAdj = []) :
       if !endStratified f.dst s then [f]
       else if isBirthKind f.kind && s.kind == .age then
         (s.strata.filter (fun st => st == "0")).map (copy f s false true [])
-      else s.strata.map (copy f s false true [share s.strata.length])) := by
+      else s.strata.map (copy f s false true [shareA s.strata.length])) := by
   unfold stratifyEntry
   simp only [getFlowAdjustment_nil s f h, isBirth_eq, Strat.isAgeing]
   by_cases hd : endStratified f.dst s = true
@@ -61,7 +61,7 @@ theorem stratifyEntry_unadj (s : Strat α) (f : Flow α) (h : s.flowAdj = []) :
       intro st _
       simp [copy, childEnd]
     · simp only [hb]
-      simp [guardE, bind, Except.bind, pure, Except.pure, copy, childEnd, share, shareAdj]
+      simp [guardE, bind, Except.bind, pure, Except.pure, copy, childEnd, shareA, shareAdj]
   · simp [hd]; rfl
 
 theorem stratifyExit_unadj (s : Strat α) (f : Flow α) (h : s.flowAdj = []) :
@@ -82,8 +82,8 @@ theorem stratifyTransition_unadj (s : Strat α) (f : Flow α) (h : s.flowAdj = [
       else
         let conservation := dstS && !srcS && !(s.kind == .strain)
         let extra : List (Adj α) :=
-          if conservation then [share n]
-          else if f.kind == .absolute && decide (1 < n) then [share n]
+          if conservation then [shareA n]
+          else if f.kind == .absolute && decide (1 < n) then [shareA n]
           else []
         s.strata.map (copy f s srcS dstS extra)) := by
   unfold stratifyTransition
@@ -92,18 +92,18 @@ theorem stratifyTransition_unadj (s : Strat α) (f : Flow α) (h : s.flowAdj = [
   · simp only [hd, Bool.not_true, Bool.false_eq_true, if_false]
     simp only [bind, Except.bind, pure, Except.pure, Option.isNone_none, Bool.and_true, List.length_map]
     by_cases hc : (endStratified f.dst s && !endStratified f.src s && !(s.kind == .strain)) = true
-    · simp [hc, copy, childEnd, share, shareAdj]
+    · simp [hc, copy, childEnd, shareA, shareAdj]
     · simp only [hc]
       by_cases ha : (f.kind == .absolute && decide (1 < s.strata.length)) = true
       · have ha' : (f.kind == .absolute && decide (s.strata.length > 1)) = true := ha
-        simp [ha, copy, childEnd, share, shareAdj]
+        simp [ha, copy, childEnd, shareA, shareAdj]
       · have ha' : ¬ (f.kind == .absolute && decide (s.strata.length > 1)) = true := ha
         simp [ha, copy, childEnd]
   · simp [hd]; rfl
 
 theorem stratifyFlow_unadj (s : Strat α) (f : Flow α) (h : s.flowAdj = []) :
-    stratifyFlow f s = .ok (copies s f) := by
-  unfold stratifyFlow copies
+    stratifyFlow f s = .ok (copiesA s f) := by
+  unfold stratifyFlow copiesA
   rw [isEntry_eq, isExit_eq]
   by_cases he : isEntryKind f.kind = true
   · simp only [he, if_true]; exact stratifyEntry_unadj s f h
@@ -112,7 +112,7 @@ theorem stratifyFlow_unadj (s : Strat α) (f : Flow α) (h : s.flowAdj = []) :
     · simp only [he, hx]; exact stratifyTransition_unadj s f h
 end
 
-/-! ### realised weights of the copies -/
+/-! ### realised weights of the copiesA -/
 section weights
 variable {α : Type} [Zero α] [One α] [Add α] [Sub α] [Mul α] [Div α] [NatCast α] [LT α] [DecidableLT α]
 
@@ -123,8 +123,8 @@ theorem realised_copy_nil (f : Flow α) (s : Strat α) (a b : Bool) (st : String
 
 omit [Zero α] [Add α] [Sub α] [Mul α] [LT α] [DecidableLT α] in
 theorem realised_copy_share (f : Flow α) (s : Strat α) (a b : Bool) (n : Nat) (st : String) :
-    realised (copy f s a b [share n] st) = .mul (realised f) (.const ((1 : α) / (n : α))) := by
-  simp [realised, copy, share, List.foldl_append]
+    realised (copy f s a b [shareA n] st) = .mul (realised f) (.const ((1 : α) / (n : α))) := by
+  simp [realised, copy, shareA, List.foldl_append]
 
 theorem eval_mul_const (env : Env α) (e : Expr α) (c : α) :
     (Expr.mul e (.const c)).eval env = (e.eval env).map (· * c) := by
